@@ -78,6 +78,16 @@ func init() {
 		Rule: "one case = one seeded run of the real bandoracle+market pipeline for a drawn window size N in {1,2,3,5,10} and accepted gap, fed through the real IBC callbacks with PRNG-chosen packet fates (drop ack/response/both, reorder, duplicate, stale id, short list, wrong channel, late old response) and sample values (random, zero, repeated, max uint64), assets added mid-run; compared after every block with a reference model (set of admissible windows; mean in big integers); distinct = distinct digest of (event, outcome) sequence; non-trivial = at least one active price was compared with the model mean",
 		Assume: []string{"the sample sequence is what bandoracle publishes to market (last acknowledged request id + stored result + validation flag)", "after an outage whose length is within 20 blocks of the configured gap both keeping and clearing the window are accepted"},
 	}
+	props["C16"] = &PropSpec{
+		ID: "C16", Level: "exploration", Scenarios: []string{"cdp"},
+		NewHarness: func(spec *PropSpec) Harness { return &c16Harness{spec: spec} },
+		Quick:      Budget{Runs: 48, MaxEvents: 120},
+		Thorough:   Budget{Runs: 2500, MaxEvents: 400},
+		Essential:  []string{"c16.block_hashes_compared", "c16.fresh_process_replica_compared"},
+		BatchProbe: []string{"c16.block_hashes_compared", "c16.fresh_process_replica_compared"},
+		Rule: "one case = one generated block/tx stream (seeded swarm workload) executed on 5 replicas: primary, second in-process instance, crash/restart instance (App dropped after BeginBlock / after a tx / before Commit / after Commit at plan-chosen points, reopened from the durable DB, interrupted block re-executed), and two fresh OS processes at GOMAXPROCS 1 and 16; compared: per-tx code/gas/log/events, per-block EndBlock events and app hash (Merkle root over every module store incl. bank); distinct = distinct digest of the stream; non-trivial = block hashes compared and at least one fresh-process replica compared",
+		Assume: []string{"identical app hash implies identical module stores (collision resistance of the IAVL/rootmulti hash); on mismatch the first differing store is named", "crash during the multistore Commit itself is not simulated (SDK/IAVL territory)"},
+	}
 	props["C03"] = &PropSpec{
 		ID: "C03", Level: "exploration", Scenarios: []string{"cdp"},
 		Oracles:   func(w *World) []Oracle { return []Oracle{&c03Oracle{}} },
